@@ -56,8 +56,8 @@ pub fn start(config: Config) -> Result<Tracker, String> {
                 return Ok(t);
             }
         }
-        if t0.elapsed() > Duration::from_secs(20) {
-            return Err("tracker did not answer within 20 s".into());
+        if t0.elapsed() > Duration::from_secs(90) {
+            return Err("tracker did not answer within 90 s".into());
         }
         std::thread::sleep(Duration::from_millis(20));
     }
